@@ -34,6 +34,16 @@ var vkinds = map[string]*Config{
 }
 var vkindNames = []string{"regionMiss", "tikvRPC", "tikvServerBusy", "txnLockFast", "tikvDiskFull", "customFull", "tiny"}
 
+// vBackoff calls BackoffWithCfgAndMaxSleep and turns a panic inside it into a result class of its own.
+func vBackoff(b *Backoffer, cfg *Config, m int) (res string) {
+	defer func() {
+		if e := recover(); e != nil {
+			res = "panic"
+		}
+	}()
+	return classify(b.BackoffWithCfgAndMaxSleep(cfg, m, errPassed))
+}
+
 func classify(err error) string {
 	if err == nil {
 		return "nil"
@@ -139,6 +149,18 @@ func TestVerifBackoff(t *testing.T) {
 		}
 		newBo()
 		nops := 10 + rng.Intn(70)
+		if sc%10 == 9 {
+			// marathon: one kind, unlimited budget, far beyond the point where base*2^n leaves every integer range
+			b := NewBackofferWithVars(context.Background(), 0, nil)
+			bos = []*vbo{{b: b, cancel: func() {}, killed: new(uint32)}}
+			emit(map[string]interface{}{"op": "reset", "scenario": sc})
+			emit(map[string]interface{}{"op": "New", "max": 0, "weight": 2, "lockFast": 10, "id": 1, "st": st(b)})
+			k := vkindNames[rng.Intn(len(vkindNames))]
+			for i := 0; i < 70+rng.Intn(80); i++ {
+				emit(map[string]interface{}{"op": "Backoff", "b": 1, "kind": k, "m": -1, "res": vBackoff(b, vkinds[k], -1), "st": st(b)})
+			}
+			continue
+		}
 		// bias: some scenarios concentrate on few kinds so that the budget is really spent
 		focus := vkindNames
 		if rng.Intn(2) == 0 {
@@ -159,8 +181,7 @@ func TestVerifBackoff(t *testing.T) {
 				if rng.Intn(4) == 0 {
 					m = []int{0, 1, 5, 50, 400, 2500}[rng.Intn(6)]
 				}
-				e := vb.b.BackoffWithCfgAndMaxSleep(vkinds[k], m, errPassed)
-				emit(map[string]interface{}{"op": "Backoff", "b": bi + 1, "kind": k, "m": m, "res": classify(e), "st": st(vb.b)})
+				emit(map[string]interface{}{"op": "Backoff", "b": bi + 1, "kind": k, "m": m, "res": vBackoff(vb.b, vkinds[k], m), "st": st(vb.b)})
 			case r < 75 && len(bos) < 6:
 				c := vb.b.Clone()
 				bos = append(bos, &vbo{b: c, cancel: vb.cancel, killed: vb.killed})
